@@ -225,6 +225,23 @@ fn probe_source(d: &Def, twin: bool) -> String {
     s
 }
 
+/// The same attempt made from a destructor while the thread is unwinding from an unrelated panic (a structure
+/// that stores itself when it goes out of scope). A second panic there aborts the process, which also stops the
+/// value from being written; every write the sink receives is logged on its own line first.
+fn probe_source_unwinding(d: &Def) -> String {
+    let mut s = String::from(PRELUDE);
+    s.push_str(&d.source);
+    s.push_str("\npub struct LogSink;\nimpl std::io::Write for LogSink {\n    fn write(&mut self, b: &[u8]) -> std::io::Result<usize> { println!(\"W {}\", b.len()); Ok(b.len()) }\n    fn flush(&mut self) -> std::io::Result<()> { Ok(()) }\n}\n");
+    s.push_str(&format!("pub struct Guard(pub Option<{}>);\nimpl Drop for Guard {{\n    fn drop(&mut self) {{\n        let v = self.0.take().unwrap();\n", d.ty));
+    s.push_str(&format!("        let header = 29 + 8 + core::any::type_name::<<{} as epserde::ser::SerializeInner>::SerType>().len();\n", d.ty));
+    s.push_str("        println!(\"START header={} unwinding={}\", header, std::thread::panicking());\n");
+    s.push_str("        let r = v.serialize(&mut LogSink).is_ok();\n");
+    s.push_str("        println!(\"RESULT {}\", if r { \"ok\" } else { \"err\" });\n    }\n}\n");
+    s.push_str("\nfn main() {\n    std::panic::set_hook(Box::new(|_| {}));\n");
+    s.push_str(&format!("    let _ = std::panic::catch_unwind(|| {{\n        let _g = Guard(Some({}));\n        panic!(\"unrelated failure\");\n    }});\n}}\n", d.value));
+    s
+}
+
 pub fn run(opts: &Opts, pi: &PropInfo) -> i32 {
     let start = std::time::Instant::now();
     let n_pairs = if opts.tier == "thorough" { 260 } else { 64 };
@@ -244,6 +261,10 @@ pub fn run(opts: &Opts, pi: &PropInfo) -> i32 {
             let d = Def { source: format!("{}{}", HANDLE, defs), value: val.to_string(), ty: ty.to_string() };
             probes.push(Probe { name: format!("c17_bad_handle_{}", k), source: probe_source(&d, false) });
             meta.push((format!("c17_bad_handle_{}", k), false, what.to_string()));
+            if !ty.contains("SerIter") && !ty.starts_with('&') {
+                probes.push(Probe { name: format!("c17_bad_unwind_{}", k), source: probe_source_unwinding(&d) });
+                meta.push((format!("c17_bad_unwind_{}", k), false, format!("{}, serialized from a destructor during unwinding", what)));
+            }
         }
     }
     for i in 0..(if replay_src.is_some() { 0 } else { n_pairs }) {
@@ -301,7 +322,13 @@ pub fn run(opts: &Opts, pi: &PropInfo) -> i32 {
         let out = r.stdout.trim().to_string();
         let get = |k: &str| out.split_whitespace().find_map(|t| t.strip_prefix(k)).and_then(|x| x.parse::<usize>().ok());
         let (bytes, header) = (get("bytes="), get("header="));
-        let ok = !out.contains("RESULT ok") && matches!((bytes, header), (Some(b), Some(h)) if b <= h);
+        let ok = if p.source.contains("pub struct LogSink") {
+            // bytes the sink received (one line per write) against the header length announced before serializing
+            let written: usize = out.lines().filter_map(|l| l.strip_prefix("W ")).filter_map(|x| x.trim().parse::<usize>().ok()).sum();
+            out.contains("START") && out.contains("unwinding=true") && !out.contains("RESULT ok") && header.map_or(false, |h| written <= h)
+        } else {
+            !out.contains("RESULT ok") && matches!((bytes, header), (Some(b), Some(h)) if b <= h)
+        };
         if ok {
             *agg.classes.entry("panicked-before-value-bytes".into()).or_default() += 1;
             *agg.classes.entry(format!("mutation: {}", class)).or_default() += 1;
